@@ -94,7 +94,12 @@ def cases(draw):
         cfg["examples_mode"] = em
     if draw(st.integers(0, 3)) == 0:
         cfg["namespaces_dict"] = {"http://ex.org/": "ex", "http://ex.org/res/": "res"}
-    return {"g": {"triples": triples, "classes": classes, "inst_prop": RDF_TYPE}, "cfg": cfg, "target": {"mode": "all"},
+    target = {"mode": "all"}
+    if draw(st.integers(0, 4)) == 0:
+        # explicit targets, one of them a class without any instance; its (empty) shape is kept and must not get a stem or an example
+        target = {"mode": "classes", "classes": [c for c in classes if not c.endswith("Meta")] + ["http://ex.org/Ghost"]}
+        cfg["remove_empty_shapes"] = False
+    return {"g": {"triples": triples, "classes": classes, "inst_prop": RDF_TYPE}, "cfg": cfg, "target": target,
             "thr": 0, "format": draw(st.sampled_from(["ShEx", "ShEx", "ShEx", "Shacl"]))}
 
 
@@ -172,6 +177,9 @@ def check(case):
             r = _judge_stem(S, lab, exp_stems[S], [p[1:] if p.startswith("^") else "??" + p for p in pats], dm, labels)
             if r:
                 return violation(r + "\n" + text, labels, nt)
+        for sub, pat in g.subject_objects(SH.pattern):
+            if str(sub) not in set(label_of.values()):
+                return violation("sh:pattern %r on %s, a shape without instances\n%s" % (str(pat), sub, text), labels, nt)
         return ok(labels, nt)
     # ---------------- ShExC
     try:
@@ -192,6 +200,12 @@ def check(case):
     for lab, sh in by_label.items():
         S = lab2S.get(lab)
         if S is None:
+            # a shape without instances (a requested class that does not occur): nothing in the data to take a stem or an example from
+            if sh.stem is not None:
+                return violation("shape %s has no instance but carries the stem %r\n%s" % (lab, sh.stem, text), labels, nt)
+            if [v for p_, v in sh.annotations if p_.endswith("comment")]:
+                return violation("shape %s has no instance but carries an example\n%s" % (lab, text), labels, nt)
+            labels.add("shape-without-instances")
             continue
         r = _judge_stem(S, lab, exp_stems[S], [sh.stem] if sh.stem is not None else [], dm, labels)
         if r:
